@@ -192,7 +192,7 @@ func runConn(sc *ConnScenario) *RetryResult {
 	sample(true)
 	rec.Emit(netsim.Event{"e": "End", "ended": ended})
 	cli.Close()
-	cfg := map[string]interface{}{"mode": "base", "reconnBaseUs": 0, "reconnMaxUs": 0, "noReestablish": true}
+	cfg := map[string]interface{}{"mode": "base", "reconnBaseUs": 0, "reconnMaxUs": 0, "noReestablish": true, "hammer": false}
 	return &RetryResult{ID: sc.ID, Cfg: cfg, Evs: rec.Snapshot(), Info: info}
 }
 
